@@ -30,7 +30,9 @@ def nullifyLastApplied (o : J) : J :=
   | none => o
   | some ann =>
     if hasKey lastAppliedAnnotation ann then
-      setStringMapAt o ["metadata", "annotations"] (some (eraseKey lastAppliedAnnotation ann))
+      -- an annotations map emptied by the removal is dropped altogether (`SetAnnotations(nil)`)
+      let rest := eraseKey lastAppliedAnnotation ann
+      setStringMapAt o ["metadata", "annotations"] (if rest.isEmpty then none else some rest)
     else o
 
 /-- `revertField` -/
